@@ -21,19 +21,20 @@ Definition NoIndex : Z := -1.
    or boxed in a reflect.Value held in Env.Vals (everything else) *)
 Inductive kind := KInt1 | KCplx | KBox
 | KInt1T (t : Z)     (* any other one-slot type (int8, float64, bool, a named type ...); t identifies the type *)
+| KCplxT (t : Z)     (* a named type whose underlying type is complex128: two slots *)
 | KBoxT (t : Z).     (* any other boxed type (slices, structs, pointers, function types ...) *)
 Inductive cls := CInt | CVar | CFunc | CConst.          (* IntBind VarBind FuncBind ConstBind *)
 
-Definition need (k : kind) : Z := match k with KCplx => 2 | _ => 1 end.
+Definition need (k : kind) : Z := match k with KCplx | KCplxT _ => 2 | _ => 1 end.
 Definition is_intkind (k : kind) : bool := match k with KBox | KBoxT _ => false | _ => true end.
 (* xr.Type.IdenticalTo: KInt1 is int, KCplx complex128, KBox string; the other types carry their identity *)
 Definition kind_eqb (a b : kind) : bool :=
   match a, b with
   | KInt1, KInt1 | KCplx, KCplx | KBox, KBox => true
-  | KInt1T s, KInt1T t | KBoxT s, KBoxT t => s =? t
+  | KInt1T s, KInt1T t | KCplxT s, KCplxT t | KBoxT s, KBoxT t => s =? t
   | _, _ => false
   end.
-Definition is_cplx (k : kind) : bool := match k with KCplx => true | _ => false end.
+Definition is_cplx (k : kind) : bool := match k with KCplx | KCplxT _ => true | _ => false end.
 Definition is_CInt (c : cls) : bool := match c with CInt => true | _ => false end.
 Definition cls_code (c : cls) : Z := match c with CInt => 0 | CVar => 1 | CFunc => 2 | CConst => 3 end.
 
